@@ -3,6 +3,7 @@ pub mod c02;
 pub mod c03;
 pub mod c04;
 pub mod c05;
+pub mod c06;
 pub mod c09;
 pub mod c12;
 pub mod c13;
@@ -32,6 +33,7 @@ pub fn dispatch(id: &str, tier: Tier, replay_file: Option<&Path>) -> i32 {
         "C03" => go!(c03),
         "C04" => go!(c04),
         "C05" => go!(c05),
+        "C06" => go!(c06),
         "C09" => go!(c09),
         "C12" => go!(c12),
         "C13" => go!(c13),
